@@ -31,6 +31,7 @@ var funcMap = template.FuncMap{
 	"has_prefix":          strings.HasPrefix,
 	"sum":                 sum,
 	"string_switch":       asStringSwitch,
+	"string_switch_bytes": asByteStringSwitch,
 	"quote":               strconv.Quote,
 	"join":                strings.Join,
 	"concat":              concat,
@@ -228,6 +229,16 @@ type stringSwitchCase struct {
 }
 
 func asStringSwitch(m map[string]int) stringSwitch {
+	return newStringSwitch(m, stringHash)
+}
+
+// asByteStringSwitch is asStringSwitch for lexers that scan bytes instead of runes (scanBytes = true).
+// Such lexers hash every consumed byte, so the hashes of the keywords are taken over bytes as well.
+func asByteStringSwitch(m map[string]int) stringSwitch {
+	return newStringSwitch(m, byteStringHash)
+}
+
+func newStringSwitch(m map[string]int, hashFn func(string) uint32) stringSwitch {
 	size := uint32(8)
 	for int(size) < len(m) {
 		size *= 2
@@ -242,7 +253,7 @@ func asStringSwitch(m map[string]int) stringSwitch {
 	index := make(map[uint32]int)
 	ret := stringSwitch{Size: size}
 	for _, str := range list {
-		hash := stringHash(str)
+		hash := hashFn(str)
 		rng := hash % size
 		i, ok := index[rng]
 		if !ok {
@@ -266,6 +277,14 @@ func stringHash(s string) uint32 {
 	var hash uint32
 	for _, r := range s {
 		hash = hash*uint32(31) + uint32(r)
+	}
+	return hash
+}
+
+func byteStringHash(s string) uint32 {
+	var hash uint32
+	for i := 0; i < len(s); i++ {
+		hash = hash*uint32(31) + uint32(s[i])
 	}
 	return hash
 }
